@@ -177,6 +177,7 @@ func main() {
 	outDir := flag.String("out", "", "directory for sample outputs (first input, canonical order) and replays")
 	onlyInput := flag.String("input", "", "only this input (replay)")
 	onlySeed := flag.Uint64("seed", 0, "only this seed (replay)")
+	singles := flag.Int("singles", 1, "add the single-method variants of zorums: every n-th method (1 = all, 0 = none)")
 	emitDir := flag.String("emit", "", "write the canonical output of every non-dev zorums input to <dir>/v<k>/ (for compile checks)")
 	flag.Parse()
 
@@ -219,6 +220,21 @@ func main() {
 		}
 		inputs = append(inputs, input{Name: "zorums.proto-without:" + strings.Join(dropped, ",") + "-renamed:" + strings.Join(renamed, ","), Req: request(dev.File_zorums_proto, drop)})
 		rename = nil
+	}
+
+	// single-method variants: a service that consists of exactly one of zorums' methods (whatever
+	// a method needs - imports, helper types, interface entries - must come with that method alone)
+	for k, keep := range all {
+		if *singles <= 0 || (k+int(*seed0))%*singles != 0 {
+			continue
+		}
+		drop := map[string]bool{}
+		for _, m := range all {
+			if m != keep {
+				drop[m] = true
+			}
+		}
+		inputs = append(inputs, input{Name: "zorums.proto-only:" + keep, Req: request(dev.File_zorums_proto, drop)})
 	}
 
 	var viol []violation
